@@ -81,8 +81,9 @@ CHECKS = {
              "vertices and ANY chip order (this covers sequential, breadth-first, Hilbert and RCM, which differ only in the two "
              "orders; same-chip chains/duplicates by a merge/expand induction); the random placer likewise for every oracle of "
              "random choices; one step of the Python annealing kernel preserves the state invariant for any draw/accept "
-             "decision and any invariant-preserving kernel yields a feasible result; Hilbert chip order side condition proved "
-             "for machines up to 16x16 (finite, stated). A verified checker check_placement (soundness proved) is evaluated in "
+             "decision and any invariant-preserving kernel yields a feasible result; the Hilbert curve of every level enumerates "
+             "its square exactly once (structural induction), so the Hilbert chip order side condition and completeness hold for "
+             "machines of every size. A verified checker check_placement (soundness proved) is evaluated in "
              "Coq on the REAL output of all seven placer configurations. Exact correspondence for the sequential family, rand "
              "(scripted), SA initial placement and step-by-step replay of the Python kernel; independent feasibility oracle.",
         ref="4 C02", technique="Coq proof (invariant free = capacity - reserved - placed; verified validator) + vm_compute correspondence incl. step replay of the SA kernel",
@@ -133,16 +134,18 @@ CHECKS = {
              "FunctionalExtensionality.functional_extensionality_dep, Classical_Prop.classic. numpy clip / int conversion / "
              "out-of-range cast are modelled as observed on numpy 2.5; float32 and integer input arrays are not modelled."),
     "C19": dict(
-        text="Full (one stated float assumption). The SpiNN-5 tiling is described independently (48-chip hexagon; Ethernet chips at "
+        text="Full. The SpiNN-5 tiling is described independently (48-chip hexagon; Ethernet chips at "
              "root + 12(i,j) + {(0,0),(4,8),(8,4)}); theorems for all integer coordinates, sizes and roots about the tables DUMPED "
              "from the live module and the indexing kernels TRANSLATED from source on every run: the tiling is a partition, the "
              "local Ethernet chip is the containing board's (tori: multiples of 12; ragged: explicit guard), the on-board "
              "coordinate is the offset, spinn5_eth_coords lists exactly the in-range Ethernet chips once each, a link has an FPGA "
-             "number iff it leaves its board and numbers are distinct, standard dimensions are the squarest factor pair. Finite "
+             "number iff it leaves its board and numbers are distinct, standard dimensions are the squarest factor pair -- stated about a Flocq binary64 model of the code: "
+             "int(math.sqrt(k)) = Z.sqrt k is PROVED for every 0 <= k < 2^52. Finite "
              "cells by vm_compute with the bound in the statement, lifted by proved mod lemmas. Whole-machine correspondence; "
              "oracle builds the tiling explicitly.",
         ref="4 C19", technique="Coq proof (finite cell by computation + mod lifting) over dumped tables and py2v-translated kernels",
-        note=TB + " int(sqrt(k)) is modelled as Z.sqrt k; code vs exact arithmetic compared for every k <= 60000 (quick) / 10^6 (thorough)."),
+        note=TB + " The float theorems (Proofs/BoardSqrt.v) depend on the standard-library axioms of the Flocq/Reals chain "
+             "(sig_forall_dec, sig_not_dec, functional_extensionality_dep, classic); all other C19 theorems are closed."),
     "C06": dict(
         text="Full under one stated guard, plus a known finding. Gallina state-machine model of send_scp_burst/send_scp (one "
              "loop iteration = one step consuming an environment event); theorems for every event list, burst, window, tries and "
